@@ -257,6 +257,11 @@ func runC08(w *World, r *Report) {
 	for _, key := range w.sortedFuncKeys() {
 		fi := w.Funcs[key]
 		if fi.Pkg.Name == "protocol" && w.isDecoderLike(fi) {
+			// an unexported step of a decoder is reached only through its callers, with what they checked:
+			// its sites are decided inside each caller (the interpreter inlines it there), not on arbitrary input
+			if !ast.IsExported(fi.Decl.Name.Name) && w.calledFromModule(fi) && fi.Decl.Name.Name != "init" {
+				continue
+			}
 			funcs = append(funcs, fi)
 		}
 	}
